@@ -156,6 +156,50 @@ impl Node {
         Node { shared, scope: Some(scope), dir: Some(dir.to_path_buf()), temp: false }
     }
 
+    /// like `on_disk`, with the tx-pool service started (a network controller without peers or
+    /// listeners; its files live under `dir/net`)
+    pub fn on_disk_with_pool(consensus: &Consensus, dir: &Path, store_config: StoreConfig) -> Node {
+        use ckb_network::{network::TransportType, Flags, NetworkService, NetworkState};
+        std::fs::create_dir_all(dir.join("header_map")).unwrap();
+        std::fs::create_dir_all(dir.join("net")).unwrap();
+        let db_config = DBConfig { path: dir.join("db"), ..Default::default() };
+        let handle = ckb_async_runtime::new_background_runtime();
+        let (shared, mut pack) = SharedBuilder::new("hx", dir, &db_config, None, handle, consensus.clone())
+            .expect("open db")
+            .store_config(store_config)
+            .header_map_tmp_dir(Some(dir.join("header_map")))
+            .build()
+            .expect("build shared");
+        let config = ckb_app_config::NetworkConfig {
+            max_peers: 19,
+            max_outbound_peers: 5,
+            path: dir.join("net"),
+            ping_interval_secs: 15,
+            ping_timeout_secs: 20,
+            connect_outbound_interval_secs: 1,
+            discovery_local_address: true,
+            bootnode_mode: true,
+            reuse_port_on_linux: true,
+            ..Default::default()
+        };
+        let state = Arc::new(NetworkState::from_config(config).expect("network state"));
+        let network = NetworkService::new(
+            state,
+            vec![],
+            vec![],
+            (shared.consensus().identify_name(), "hx".to_string(), Flags::COMPATIBILITY),
+            TransportType::Tcp,
+        )
+        .start(shared.async_handle())
+        .expect("start network service");
+        pack.take_tx_pool_builder().start(network);
+        let scope = ChainServiceScope::new(pack.take_chain_services_builder());
+        while scope.chain_controller().is_verifying_unverified_blocks_on_startup() {
+            std::thread::sleep(std::time::Duration::from_millis(1));
+        }
+        Node { shared, scope: Some(scope), dir: Some(dir.to_path_buf()), temp: false }
+    }
+
     pub fn chain(&self) -> &ChainController {
         self.scope.as_ref().unwrap().chain_controller()
     }
